@@ -421,6 +421,131 @@ pub proof fn lemma_frame_laws<M: Decode>(s: Seq<u8>, t: Seq<u8>)
     }
 }
 
+// ---- stream deserializer ---------------------------------------------------------------------------
+pub use bounded::BoundedVec;
+/// ASSUMED (std): `BoundedVec::drain(..n)` used as a statement (the returned `vec::Drain` is dropped at once)
+/// removes the first `n` elements. `vec::Drain` and `RangeBounds` are outside vstd; the call site is renamed.
+#[verifier::external_body]
+pub fn vx_drain_to<T, const N: usize>(v: &mut bounded::BoundedVec<T, N>, n: usize)
+    requires n <= old(v).v@.len()
+    ensures final(v).v@ =~= old(v).v@.skip(n as int)
+{ v.v.drain(..n); }
+
+//@extract crates/radicle-node/src/bounded.rs
+//@  inmod bounded
+//@    item enum Error
+//@      derive Debug
+//@    item struct BoundedVec
+//@      derive Clone, PartialEq, Eq
+//@    impl <T, const N: usize> BoundedVec<T, N>
+//@      fn with_capacity
+//@        ret r
+//@        body_sub Vec::with_capacity\( => vx_vec_with_capacity(
+//@        requires
+//@          capacity <= vx_received() + VX_ALLOC_SLACK || capacity > N
+//@        ensures
+//@          r is Ok <==> capacity <= N
+//@          r is Ok ==> r->Ok_0.v@.len() == 0
+//@      fn as_slice
+//@        ret r
+//@        ensures
+//@          r@ == self.v@
+//@    impl <T: Clone, const N: usize> BoundedVec<T, N>
+//@      fn extend_from_slice
+//@        ret r
+//@        requires
+//@          # language guarantee: no allocation exceeds isize::MAX bytes, so the sum of two lengths cannot overflow
+//@          old(self).v@.len() + slice@.len() <= usize::MAX
+//@        ensures
+//@          r is Ok <==> old(self).v@.len() + slice@.len() <= N
+//@          r is Ok ==> final(self).v@.len() == old(self).v@.len() + slice@.len()
+//@          r is Ok ==> forall|j: int| 0 <= j < old(self).v@.len() ==> #[trigger] final(self).v@[j] == old(self).v@[j]
+//@          r is Ok ==> forall|j: int| old(self).v@.len() <= j < final(self).v@.len() ==> cloned::<T>(slice@[j - old(self).v@.len()], #[trigger] final(self).v@[j])
+//@          r is Err ==> final(self).v@ == old(self).v@
+//@    impl <T, const N: usize> ops::Deref for BoundedVec<T, N>
+//@      fn deref
+//@        ret r
+//@        ensures
+//@          r@ == self.v@
+//@end
+
+//@extract crates/radicle-node/src/deserializer.rs
+//@  item struct Deserializer
+//@    derive
+//@  impl <const B: usize, D: wire::Decode> Deserializer<B, D>
+//@    add
+//@      pub open spec fn buf(self) -> Seq<u8> { self.unparsed.v@ }
+//@    fn input
+//@      ret r
+//@      requires
+//@        old(self).buf().len() + bytes@.len() <= usize::MAX
+//@      ensures
+//@        r is Ok <==> old(self).buf().len() + bytes@.len() <= B
+//@        r is Ok ==> final(self).buf() =~= old(self).buf() + bytes@
+//@        r is Err ==> final(self).buf() == old(self).buf()
+//@    fn deserialize_next
+//@      ret r
+//@      body_sub self\.unparsed\.drain\(\.\.pos\); => vx_drain_to(&mut self.unparsed, pos);
+//@      requires
+//@        old(self).buf().len() <= vx_received()
+//@      ensures
+//@        D::parse(old(self).buf()) matches Parse::Complete(n) ==> r is Ok && r->Ok_0 is Some && final(self).buf() =~= old(self).buf().skip(n as int)
+//@        D::parse(old(self).buf()) is Incomplete ==> r is Ok && r->Ok_0 is None && final(self).buf() == old(self).buf()
+//@        D::parse(old(self).buf()) is Invalid ==> r is Err && final(self).buf() == old(self).buf()
+//@      head
+//@        proof { lemma_seq_facts(); }
+//@end
+
+// ---- chunking independence (C14), as a lemma over the contracts above -------------------------------------
+/// Result of draining a buffer: the frames found (as byte ranges of the input), what is left, whether an error stopped it.
+pub struct Drained { pub frames: Seq<Seq<u8>>, pub rest: Seq<u8>, pub error: bool }
+
+/// What repeated `deserialize_next` yields on a buffer, by the contract of `deserialize_next`.
+pub open spec fn drain_all<D: Decode>(buf: Seq<u8>) -> Drained
+    decreases buf.len()
+{
+    match D::parse(buf) {
+        Parse::Complete(n) => if 0 < n <= buf.len() {
+            let d = drain_all::<D>(buf.skip(n as int));
+            Drained { frames: seq![buf.take(n as int)] + d.frames, rest: d.rest, error: d.error }
+        } else { Drained { frames: Seq::empty(), rest: buf, error: true } },
+        Parse::Incomplete => Drained { frames: Seq::empty(), rest: buf, error: false },
+        Parse::Invalid => Drained { frames: Seq::empty(), rest: buf, error: true },
+    }
+}
+
+/// "Feeding the encoding of any sequence of frames split at arbitrary boundaries yields exactly those frames
+/// in order": receiving `a` then `b` (draining in between) produces the same frames, the same leftover and
+/// the same error outcome as receiving `a ++ b` at once -- for every split point, hence by induction for
+/// every chunking.
+pub proof fn lemma_chunking<D: Decode>(a: Seq<u8>, b: Seq<u8>)
+    requires forall|s: Seq<u8>| (#[trigger] D::parse(s)) matches Parse::Complete(n) ==> n > 0
+    ensures ({
+        let da = drain_all::<D>(a);
+        let dab = drain_all::<D>(a + b);
+        let db = drain_all::<D>(da.rest + b);
+        if da.error { dab.error && dab.frames =~= da.frames }
+        else { dab.frames =~= da.frames + db.frames && dab.rest =~= db.rest && dab.error == db.error }
+    })
+    decreases a.len()
+{
+    D::parse_laws(a, b);
+    match D::parse(a) {
+        Parse::Complete(n) => {
+            assert(0 < n <= a.len());
+            assert((a + b).skip(n as int) =~= a.skip(n as int) + b);
+            assert((a + b).take(n as int) =~= a.take(n as int));
+            lemma_chunking::<D>(a.skip(n as int), b);
+            let da = drain_all::<D>(a);
+            let d1 = drain_all::<D>(a.skip(n as int));
+            let dab = drain_all::<D>(a + b);
+            assert(dab.frames =~= seq![a.take(n as int)] + drain_all::<D>(a.skip(n as int) + b).frames);
+        }
+        Parse::Incomplete => { }
+        Parse::Invalid => { }
+    }
+}
+
 //@canary
 } // verus!
 fn main() {}
